@@ -701,7 +701,9 @@ func runC07(c *core.Ctx) {
 		{0: "MiXeD-Case-Opaque-ID", 14: "urn:oasis:names:tc:SAML:2.0:nameid-format:persistent"},
 		{0: "CN=Alice Liddell,OU=Wonderland,O=Example,C=GB", 14: "urn:oasis:names:tc:SAML:1.1:nameid-format:X509SubjectName"},
 		{0: "EXAMPLE\\Alice", 14: "urn:oasis:names:tc:SAML:1.1:nameid-format:WindowsDomainQualifiedName"},
-		{0: "Ünï@Ünï.Example", 14: "urn:oasis:names:tc:SAML:1.1:nameid-format:unspecified"}}
+		{0: "Ünï@Ünï.Example", 14: "urn:oasis:names:tc:SAML:1.1:nameid-format:unspecified"},
+		// values that repeat: a group the session lists twice, a custom attribute whose two values are equal, several fields with one text
+		{7: "Users"}, {7: "Wonderland"}, {8: "first"}, {7: "Users", 8: "first"}, {1: "same", 2: "same", 3: "same", 4: "same", 5: "same", 6: "same", 7: "same", 12: "same", 13: "same"}}
 	for _, cf := range cfgs {
 		for pi, pr := range probes {
 			cf, pr, pi := cf, pr, pi
